@@ -1,6 +1,7 @@
 package memtable
 
 import (
+	"github.com/KevoDB/kevo/pkg/verifhook"
 	"sync"
 	"sync/atomic"
 	"time"
@@ -131,6 +132,7 @@ func (p *MemTablePool) SwitchToNewMemTable() *MemTable {
 	oldActive := p.active
 	oldActive.SetImmutable()
 
+	verifhook.At("pool.switch.immutable")
 	// Create a new active table
 	p.active = NewMemTable()
 
